@@ -255,12 +255,12 @@ CHECKS = {
                        "representation invariant (off=0, lastRead=0, prefix empty, not in grouped mode, noQuoted, dedupeAttrs). The two "
                        "payloads must be byte-identical and the invariant must hold on the object put back, so one step covers histories of "
                        "any length on any logger.",
-        "bounds": {"quick": "stale buffer 2 bytes, stale strings 1-2 bytes, 2 stale colour values each; 3 formats x 2 UTC modes x 4 severities x 3 messages x 4 attribute lists",
+        "bounds": {"quick": "stale buffer 2 bytes, stale strings 1-2 bytes, 2 stale colour values each; 3 formats x 2 UTC modes x 4 severities x 3 messages x 5 attribute lists (incl. a group last, an error, a time.Time keyed 'time' last)",
                    "thorough": "same space (covered at quick)"},
         "outside": "user marshallers that read from the PrintCtx (move off); the pooled attribute slice of logContext (its cells are never read beyond len)",
         "assumptions": ["sync.Pool hands back the object put last (engine model; natively true on one goroutine without GC)"],
         "runs": [
-            {"harness": "VH_C09", "quick": {"attrkinds": 4}, "thorough": {"attrkinds": 4}, "covers": ["C09:compared"]},
+            {"harness": "VH_C09", "quick": {"attrkinds": 5}, "thorough": {"attrkinds": 5}, "covers": ["C09:compared"]},
         ],
     },
     "C10": {
@@ -372,6 +372,7 @@ CHECKS = {
         "runs": [
             {"harness": "VH_C06", "quick": {"msg": 3, "attrkinds": 4}, "thorough": {"msg": 4, "attrkinds": 4}, "covers": ["C06:rendered"]},
             {"harness": "VH_C06", "quick": {"msg": 2, "attrkinds": 2, "widths": 1}, "thorough": {"msg": 3, "attrkinds": 2, "widths": 1}, "covers": ["C06:rendered"]},
+            {"harness": "VH_C06", "quick": {"msg": 2, "attrkinds": 2, "tail": 1}, "thorough": {"msg": 2, "attrkinds": 4, "tail": 1, "widths": 1}, "covers": ["C06:rendered"]},
             {"harness": "VH_C06", "quick": {"msg": 2, "attrkinds": 5, "hygiene": 1}, "thorough": {"msg": 3, "attrkinds": 5, "hygiene": 1}, "covers": ["C06:rendered"]},
         ],
     },
